@@ -66,7 +66,7 @@ def _eps_dom(full):
   if full.get("alpha") != "auto_po2" or full.get("scale_axis") is None:
     return [None]
   if isinstance(full.get("scale_axis"), list):
-    return [None, 2, [2, 1]]
+    return [None, 2, [2, 1] if len(full["scale_axis"]) == 2 else [2]]
   return [None, 2]
 
 
@@ -109,7 +109,7 @@ SPEC = {
     ],
     "quantized_bits": [
         ("alpha", _const(ALPHAS)),
-        ("scale_axis", _const([None, 0, [0, 1]])),
+        ("scale_axis", _const([None, 0, [0, 1], [0]])),
         ("bits", _const([8, 4, 2])),
         ("integer", _const([0, 1])),
         ("symmetric", _const([0, 1])),
@@ -149,7 +149,7 @@ SPEC = {
     ],
     "binary": [
         ("alpha", _const(ALPHAS)),
-        ("scale_axis", _const([None, 0, [0, 1]])),
+        ("scale_axis", _const([None, 0, [0, 1], [0]])),
         ("use_01", _const([False, True])),
         ("use_stochastic_rounding", _const([False, True])),
         ("elements_per_scale", _eps_dom),
@@ -352,7 +352,8 @@ def build(cls, kw, qn_update=False):
   """Constructs the quantizer.  With qn_update the qnoise_factor of kw is not
   passed to the constructor but set afterwards through the documented
   update_qnoise_factor() (after a first call when use_variables made it a
-  tf.Variable) - the resulting quantizer must be the same function."""
+  tf.Variable; qn_update="var" passes a tf.Variable as QNoiseScheduler
+  does) - the resulting quantizer must be the same function."""
   from qkeras import quantizers as Q  # pylint: disable=g-import-not-at-top
   if qn_update:
     import tensorflow as tf  # pylint: disable=g-import-not-at-top
@@ -361,7 +362,10 @@ def build(cls, kw, qn_update=False):
     if kw.get("use_variables"):
       q(tf.constant([0.5, -0.25], dtype=tf.float32))
     if "qnoise_factor" in kw:
-      q.update_qnoise_factor(kw["qnoise_factor"])
+      v = kw["qnoise_factor"]
+      if qn_update == "var":      # the scheduler hands over a tf.Variable
+        v = tf.Variable(v, dtype=tf.float32, trainable=False)
+      q.update_qnoise_factor(v)
     return q
   return getattr(Q, cls)(**{k: decode(v) for k, v in kw.items()})
 
